@@ -195,7 +195,16 @@ impl<T> Drop for Receiver<T> {
 }
 
 pub struct TryIter<'a, T> { r: &'a Receiver<T> }
-impl<'a, T> Iterator for TryIter<'a, T> { type Item = T; fn next(&mut self) -> Option<T> { self.r.try_recv().ok() } }
+impl<'a, T> Iterator for TryIter<'a, T> {
+    type Item = T;
+    // same as `self.r.try_recv().ok()`, without building the intermediate Result<T, TryRecvError> (its two-level niche layout
+    // made CBMC lose the constant discriminant of the popped command)
+    fn next(&mut self) -> Option<T> {
+        vs::schedule_point(vs::S_Q_RECV);
+        if self.r.c().len == 0 { return None; }
+        Some(pop(self.r.c(), unsafe { *self.r.bufp }))
+    }
+}
 pub struct Iter<'a, T> { r: &'a Receiver<T> }
 impl<'a, T> Iterator for Iter<'a, T> { type Item = T; fn next(&mut self) -> Option<T> { self.r.recv().ok() } }
 
